@@ -58,7 +58,7 @@ def run(ctx):
             ctx.cov['impl_vs_oracle_failures'] += 1
             if nv <= 5:
                 ctx.violation('%s: %s; implementation answers "%s"' % (ln_[:80], bad, ra[:200]), {'lines': [ln_], 'impl': ra, 'model': b}, key='frame:%d:%d:%d' % (t, ln, p))
-        if common.proj_framing(ra) != common.proj_framing(b):
+        if common.proj_framing_line(ra, ln_) != common.proj_framing_line(b, ln_):
             ctx.cov['model_vs_impl_disagreements'] += 1
             if not bad:
                 ctx.violation('correspondence broken on %s: implementation "%s", model "%s"' % (ln_[:80], ra[:160], b[:160]),
@@ -77,7 +77,7 @@ def run(ctx):
     fams = [f for f in fams if f in enc.FAMILIES]
     exact, mutants = common.gen_cases(ctx, fams, n)
     common.run_exact(ctx, exact)
-    common.run_differential(ctx, mutants, common.proj_framing)
+    common.run_differential(ctx, mutants, common.proj_framing_line)
     common.lean_failure_violation(ctx, ok)
     return ctx.finish(LEVEL,
         rule='framing sweep over 256 content types x boundary lengths x prefixes (all epochs/sequence numbers sampled incl. 0, 1, max) judged by the framing oracle; header decode exact; well-formed DTLS records / datagrams / handshake messages of every supported body incl. fragments with (offset, fragment length, length) boundary triples (exact values), suffixes, corruptions (differential); distinct = (type class, length class, prefix class, outcome) resp. (family, outcome shape)',
